@@ -15,6 +15,7 @@ DECIDED = ("The decoder BookMovesIter::next is extracted from MIR as a 4-case su
            "terminates), no arithmetic on the walk overflows, no unwrap fails; R2 IntoIterator/constants plumb the indices through unchanged; R3 every one of the "
            "edges, replayed from the standard position on the checker's reference rules, is a legal move and not a pawn reaching the last rank.")
 DECIDED = DECIDED + " R4 the root cursor of the book is handed out only on paths that established 'no board given' (the board then is Board::standard()) or equality of the WHOLE board with Board::standard() (edge dominance in the consumer's CFG)."
+DECIDED = DECIDED + ' R90 premises re-run here: C02 C02.R1, C02.R6, C02.R8, C02.R9; C01 C01.R1, C01.R2, C01.R3, C01.R5; C09 C09.R1.'
 NOT_DECIDED = "nothing of the statement; trusted: the reference rules in analysis/chessref.py (perft-checked to depth 4 in selftest) and the K4 extractor"
 EXPLANATION = ("Constant data + extracted summary: the BOOK words are the compiler's evaluation of the static; the traversal is driven by the decoder's own summary evaluated on "
                "concrete indices (evaluation of the summary, not of the program), so a change of either the data or the decoder is followed faithfully.")
@@ -295,6 +296,16 @@ def rw(ctx):
 
 
 rw.thorough_only = True
+
+@rule("C17.R90", 'premises shared with other properties: C02 (C02.R1, C02.R6, C02.R8, C02.R9); C01 (C01.R1, C01.R2, C01.R3, C01.R5); C09 (C09.R1)')
+def r_premises_shared(ctx):
+    """This property's argument rests on these rules of other properties (what it calls is assumed to behave); they are re-run here so that a
+    breakage of one of them is reported by this property's own check as well."""
+    from analysis.runner import premise
+    premise(ctx, 'C02', ['C02.R1', 'C02.R6', 'C02.R8', 'C02.R9'] and set(['C02.R1', 'C02.R6', 'C02.R8', 'C02.R9']), 'the CLI replays book lines through the checked move API; its legality gate / make-move helpers no longer follow the rules')
+    premise(ctx, 'C01', ['C01.R1', 'C01.R2', 'C01.R3', 'C01.R5'] and set(['C01.R1', 'C01.R2', 'C01.R3', 'C01.R5']), 'a book move must be in the generated move list of the position reached; the list is no longer exactly the legal moves')
+    premise(ctx, 'C09', ['C09.R1'] and set(['C09.R1']), 'the generator reads these geometry tables; one of them no longer equals its definition')
+
 
 # ------------------------------------------------------------------ controls
 def _word(i, f):
